@@ -152,7 +152,7 @@ def doOpCursor (W S : Nat) (data : Option (List Nat)) (x : Coder) (seg : List St
   | ["nw"] => doOp W S x seg
   | ["getc"] =>
       -- the guard either shows the sealed words and restores the coder, or fails and (after the
-      -- D17 repair) leaves the coder as it was
+      -- D21 repair) leaves the coder as it was
       match intoCompressed (cfgOf W S 1 1) x, getCompressedThenDrop (cfgOf W S 1 1) x with
       | some ws, some y => some (y, showList ws.reverse, false)
       | _, _ => some (x, "full", false)
